@@ -411,7 +411,8 @@ pub open spec fn sr_def_out(d: Def) -> Option<Variable> {
 /// the def writes a sub-register
 pub open spec fn sr_writes_sub(t: SrTable, d: Def) -> bool { sr_def_out(d) is Some && sr_needs(t, sr_def_out(d)->Some_0) }
 
-/// `next` is a cast of exactly the variable `s` into the register that is the base register of `s` (and `s` is not that base register)
+/// `next` is a cast of exactly the variable `s` into the register that is the base register of `s`, written at FULL size
+/// (and `s` is not that base register)
 pub open spec fn sr_merge_ok(t: SrTable, s: Variable, next: Def) -> bool {
     &&& next is Assign
     &&& next->Assign_value is Cast
@@ -420,16 +421,11 @@ pub open spec fn sr_merge_ok(t: SrTable, s: Variable, next: Def) -> bool {
     &&& t.contains_key(&next->Assign_var.name)
     &&& s.name != sr_base(t, s.name)
     &&& sr_base(t, s.name) == next->Assign_var.name
-}
-/// HYPOTHESIS (finding F1): a cast that follows the write of a sub-register and targets the NAME of its base register writes the
-/// base register at FULL size
-pub open spec fn sr_no_narrow_cast(t: SrTable, d: Def, next: Def) -> bool {
-    sr_writes_sub(t, d) && sr_merge_ok(t, sr_def_out(d)->Some_0, next) ==> next->Assign_var.size.0 == (*t[&next->Assign_var.name]).size.0
+    &&& next->Assign_var.size.0 == (*t[&next->Assign_var.name]).size.0
 }
 pub open spec fn sr_defs_ok(t: SrTable, tmp: String, defs: Seq<Term<Def>>) -> bool {
     &&& !t.contains_key(&tmp)
     &&& forall |i: int| 0 <= i < defs.len() ==> sr_def_ok(t, tmp, (#[trigger] defs[i]).term)
-    &&& forall |i: int| 0 <= i && i + 1 < defs.len() ==> sr_no_narrow_cast(t, (#[trigger] defs[i]).term, defs[i + 1].term)
 }
 
 // ---- reference output of replace_output_subregister (an intermediate of the proof: lemma_sr_out_sim shows that it simulates) ---
